@@ -33,6 +33,9 @@ def bounded_multibc(tier, seed):
         n = rng.choice([1, 2, 3, 4, 6])
         machs = sorted(rng.sample([0.4, 0.7, 0.9, 1.0, 1.2, 1.6, 2.0, 2.5, 3.0, 4.0], n))
         bcs = [rng.uniform(0.15, 0.6) for _ in machs]
+        if k % 4 == 1 and n >= 3:       # stepped curves: neighbouring points with the same BC (a flat band)
+            j = rng.randrange(0, n - 1)
+            bcs[j + 1] = bcs[j]
         pts = [BCPoint(b, Mach=m) if rng.random() < 0.5 else BCPoint(b, V=P.Unit.MPS(m * 340.0)) for b, m in zip(bcs, machs)]
         pm = sorted((p.Mach, p.BC) for p in pts)
         rng.shuffle(pts)
